@@ -140,3 +140,148 @@ def locate(cmds, outline):
         if produced > outline:
             return hist
     return hist
+
+
+# ------------------------------------------------------------------------------------------------
+# Implementation-only exploration with the property oracles of C03/C04 (used as the *search* for a
+# failing interleaving when the proofs or the lock-step correspondence break; the model is not involved)
+class ImplSched:
+    def __init__(self, exe):
+        import subprocess
+        e = dict(os.environ); e["ASAN_OPTIONS"] = "detect_leaks=0"
+        self.p = subprocess.Popen([exe], stdin=subprocess.PIPE, stdout=subprocess.PIPE, stderr=subprocess.PIPE,
+                                  env=e, text=True, bufsize=1)
+
+    def cmd(self, c, nlines):
+        self.p.stdin.write(c + "\n"); self.p.stdin.flush()
+        out = []
+        for _ in range(nlines):
+            ln = self.p.stdout.readline()
+            if not ln:
+                raise RuntimeError("harness died: " + self.p.stderr.read()[-1500:])
+            out.append(ln.rstrip("\n"))
+        return out
+
+    def close(self):
+        try:
+            self.p.stdin.close(); self.p.wait(timeout=5)
+        except Exception:
+            self.p.kill()
+
+
+def parse_state(line, n):
+    """parse the canonical state line of sched_harness.c"""
+    parts = [x.strip() for x in line.split("|")]
+    t = parts[0].split()
+    d = {"tasks": int(t[1]), "head": int(t[3]), "tail": int(t[4]), "count": int(t[5])}
+    d["sz"] = [int(x) for x in parts[3].split()[1:]]            # n+1 entries
+    lead = [i for i in range(n) if d["sz"][i] >= 1]
+    st = [int(x) for x in parts[2].split()[1:]]
+    d["lead"] = lead
+    d["st"] = dict(zip(lead + [n], st))
+    uk = [int(x) for x in parts[4].split()[1:]]
+    d["uk"] = dict(zip(lead + [n], uk))
+    d["q"] = [int(x) for x in parts[6].split()[1:]]
+    return d
+
+
+def impl_explore(exe, forest, psz, relax, P, max_states=20000):
+    """DFS over the thread/scheduler protocol driven only by the C scheduler; returns a violation dict or None"""
+    n = len(forest)
+    h = ImplSched(exe)
+    DONE, BUSY, CANGO = 0, 1, 2
+    try:
+        out = h.cmd("INIT %d %d %d %s" % (n, psz, relax, " ".join(map(str, forest))), 2)
+        s0 = out[1]
+        d0 = parse_state(s0, n)
+        sz = d0["sz"]
+        dad = {p: forest[p + sz[p] - 1] for p in d0["lead"]}
+        kids = {}
+        for p, dd in dad.items():
+            kids.setdefault(dd, []).append(p)
+        seen = set()
+        nst = [0]
+
+        def anc(x, p):      # x descendant-or-self of p
+            while x != p and x < n:
+                x = dad.get(x, n)
+            return x == p
+
+        def rec(line, thr, hist):
+            key = (line, tuple(sorted(thr)))
+            if key in seen or nst[0] >= max_states:
+                return None
+            seen.add(key); nst[0] += 1
+            d = parse_state(line, n)
+            enabled = 0
+            tried = set()
+            for t, (m, cur) in enumerate(thr):
+                if (m, cur) in tried:
+                    continue
+                tried.add((m, cur))
+                if m == 0:      # working: may finish when all children are DONE
+                    if all(d["st"][c] == DONE for c in kids.get(cur, [])):
+                        enabled += 1
+                        h.cmd("SNAP", 0)
+                        o = h.cmd("DONE %d" % cur, 1)
+                        th2 = list(thr); th2[t] = (1, cur)
+                        v = rec(o[0], th2, hist + ["DONE %d" % cur])
+                        h.cmd("RESTORE", 0)
+                        if v: return v
+                elif m == 1:    # at the loop test
+                    enabled += 1
+                    th2 = list(thr); th2[t] = (2 if d["tasks"] > 0 else 3, cur)
+                    v = rec(line, th2, hist + ["TEST t%d" % t])
+                    if v: return v
+                elif m == 2:    # calls the scheduler
+                    enabled += 1
+                    h.cmd("SNAP", 0)
+                    o = h.cmd("CALL %d" % cur, 2)
+                    r = o[0].split()
+                    j, b = int(r[1]), int(r[2])
+                    hist2 = hist + ["CALL %d -> %d bcol %d" % (cur, j, b)]
+                    d2 = parse_state(o[1], n)
+                    bad = None
+                    if j != -1:
+                        if j not in d["st"] or j >= n or d["st"][j] < CANGO:
+                            bad = "scheduler handed out panel %d which was already taken or is not a panel" % j
+                        elif not (anc(b, j)):
+                            bad = "bcol %d is not a descendant of the panel %d handed out" % (b, j)
+                        else:
+                            nd = [c for c in kids.get(j, []) if d2["st"][c] != DONE]
+                            if any(d2["st"][c] > BUSY for c in kids.get(j, [])) or len(nd) > 1:
+                                bad = "panel %d handed out although its children are not all finished except one busy chain: %s" % (j, nd)
+                            elif d2["st"].get(b) == DONE or any(d2["st"][c] != DONE for c in kids.get(b, [])):
+                                bad = "bcol %d is not the bottom of the busy chain below panel %d" % (b, j)
+                            else:   # every non-DONE proper descendant lies on the path b -> j
+                                for x in d2["lead"]:
+                                    if x != j and anc(x, j) and d2["st"][x] != DONE and not anc(b, x):
+                                        bad = "non-DONE descendant %d of panel %d is off the chain ending at bcol %d" % (x, j, b); break
+                    if bad is None:
+                        unt = sum(1 for p in d2["lead"] if d2["st"][p] >= CANGO)
+                        if d2["tasks"] != unt:
+                            bad = "tasks_remain = %d but %d panels are untaken" % (d2["tasks"], unt)
+                        elif not (0 <= d2["head"] <= d2["tail"] <= n and d2["count"] == d2["tail"] - d2["head"]):
+                            bad = "queue indices out of bounds: head %d tail %d count %d n %d" % (d2["head"], d2["tail"], d2["count"], n)
+                    if bad:
+                        return {"what": bad, "forest": forest, "w": psz, "relax": relax, "nthreads": P, "history": hist2}
+                    th2 = list(thr); th2[t] = (0, j) if j != -1 else (1, -1)
+                    v = rec(o[1], th2, hist2)
+                    h.cmd("RESTORE", 0)
+                    if v: return v
+            if enabled == 0:
+                if any(m != 3 for m, _ in thr):
+                    return {"what": "deadlock: no thread can make a step", "forest": forest, "w": psz, "relax": relax,
+                            "nthreads": P, "history": hist}
+                if d["tasks"] != 0 or any(d["st"][p] != DONE for p in d["lead"]):
+                    return {"what": "all threads left the loop but not every panel is DONE / tasks_remain = %d" % d["tasks"],
+                            "forest": forest, "w": psz, "relax": relax, "nthreads": P, "history": hist}
+            return None
+        import sys
+        sys.setrecursionlimit(100000)
+        return rec(s0, [(1, -1)] * P, [])
+    except RuntimeError as e:
+        return {"what": "scheduler harness crashed (sanitizer): %s" % str(e)[-800:], "forest": forest, "w": psz,
+                "relax": relax, "nthreads": P, "history": []}
+    finally:
+        h.close()
